@@ -140,7 +140,7 @@ func stopNodes(ns ...*hk.HNode) {
 func main() {
 	hk.InstallHook()
 	hk.Rule("(a) matrix: every combination of {node, acceptor} cookie on the accepting side and {node, route} cookie on the dialing side over the values unset/x/y, for five ways of reaching the acceptor (explicit route, explicit route with resolver, static route, static route with resolver, registrar lookup), with seeded flags and message-size limits, plus cells that change a cookie at run time; non-trivial iff the two effective cookies differ (the rejection path is entered) ; " +
-		"(b) adversary: attack scripts derived from transcripts recorded on a genuine handshake (cut at every byte, every frame replayed at every step, digests recomputed without the secret, digests transplanted between message kinds, first message reflected to an honest acceptor), in-process against Start/Accept/Join and over TCP against live nodes; non-trivial iff the victim answered at least one attacker message (the run got past the first message); " +
+		"(b) adversary: attack scripts derived from transcripts recorded on a genuine handshake (cut at every byte, every frame replayed at every step, digests recomputed without the secret, digests transplanted between message kinds, first message reflected to an honest acceptor) and rogue acceptors / dialers that forge every authenticating field of every message they send (Salt x Digest x DigestCert, each from {garbage, empty, replayed, echoed from the victim, computed without / with a guessed cookie}), in-process against Start/Accept/Join and over TCP against live nodes; non-trivial iff the victim answered at least one attacker message (the run got past the first message); " +
 		"(c) permissions: seeded histories of Enable/Disable(Spawn|ApplicationStart) with and without node lists on a target node under each flag setting, attempts from two peers after every operation, reference model = set of peers a name is currently enabled for; non-trivial iff the history contains a disable after an enable; distinct = scenario x parameters x observed outcome class")
 	hk.Assume("nodes of one OS process connected over 127.0.0.1 TCP behave like nodes on different hosts for the handshake and the permission checks")
 	hk.Assume("the adversary knows everything but the cookie: protocol, node names, connection ids seen on the wire, and can record and re-send any bytes; it cannot invert SHA-256")
